@@ -39,10 +39,10 @@ def evalReq (req : List String) : Option (Obs × Option Obs) :=
   | ["msg", impl, s, d1, d2] => do
       let b : Bytes := ⟨← nat? s, ← nat? d1, ← nat? d2⟩
       some (modelMsg impl b, some (specMsgLine impl b))
-  | ["blk", impl, s] => do
+  | ["blk", mask, impl, s] => do
       let s ← nat? s
-      let dm := blkDigest (modelMsg impl) s
-      let ds := blkDigest (specMsgLine impl) s
+      let dm := blkDigest mask (modelMsg impl) s
+      let ds := blkDigest mask (specMsgLine impl) s
       some ([(dm.toNat : Int)], some [(ds.toNat : Int)])
   | _ => none
 
